@@ -309,6 +309,31 @@ def align(ctx: Ctx) -> None:
                 + ("" if ok else f" — {why}"),
                 sel="sink",
             )
+    # after unification, chunk metadata must be read from the unified arrays: an alias taken
+    # from the sequence *before* it was unified still has the old chunking
+    CH = {"chunks", "chunksize", "numblocks", "npartitions", "chunkmem"}
+    for f in reach.values():
+        if f.module.qual.startswith(("cubed.vendor.", "cubed.runtime.", "cubed.storage.", "cubed.primitive.")):
+            continue
+        fl, cfg = flow_of(repo, f), cfg_of(f)
+        uni = [(nid, s_) for nid, ss in fl.sites.items() for s_ in ss if s_.kind == "unpack" and isinstance(s_.value, ast.Call) and repo.callee_quals(s_.value, f) & _sanitizers(repo) and s_.index == (1,)]
+        for unid, us in uni:
+            seq = us.name
+            for n_ in f.own_nodes():
+                if not (isinstance(n_, ast.Attribute) and n_.attr in CH and isinstance(n_.value, ast.Name) and cfg.has(n_)):
+                    continue
+                at = cfg.node_of(n_)
+                if not cfg.can_reach(unid, at) or at == unid or id(n_.value) in fl.comp_bind:
+                    continue
+                stale = False
+                for s2 in fl.rdefs(n_.value.id, at):
+                    if s2.kind == "assign" and s2.value is not None and isinstance(s2.value, ast.Subscript) and isinstance(s2.value.value, ast.Name) and s2.value.value.id == seq:
+                        # alias = seq[i]; which definition of seq did it see?
+                        seq_defs = fl.rdefs(seq, s2.node)
+                        if seq_defs and all(d_.node != unid for d_ in seq_defs) and cfg.can_reach(s2.node, unid):
+                            stale = True
+                if stale:
+                    ctx.ob(f, n_, False, f"`{unparse(n_)}` reads chunk metadata from `{n_.value.id}`, an element taken from `{seq}` before unify_chunks rebound it: the operation is declared with the old chunking while its inputs were rechunked", sel=f"stale-alias:{unparse(n_)}")
     # the sanitizer itself: ops.blockwise with align_arrays absent/true unifies chunks and uses
     # the unified arrays for everything that follows
     bw = repo.get(BW)
@@ -655,6 +680,26 @@ def proxy_keys(ctx: Ctx) -> None:
     b = repo.get(f"{A.PBW}.blockwise")
     ok = any(isinstance(n, ast.Assign) and unparse(n.targets[0]) == "array_names" and "in_names" in unparse(n.value) for n in b.own_nodes())
     ctx.ob(b, None, ok, "primitive blockwise: index-notation keys are generated under the caller's in_names", sel="names:blockwise:array-names")
+    # index-notation key function: the coordinate map of an argument is bound by *position*
+    # (the same array may appear twice with different index patterns, e.g. x 'ij' and x 'ji')
+    bk = repo.get(f"{A.PBW}.make_blockwise_back_key_function.back_key_function")
+    kfl, kcfg = flow_of(repo, bk), cfg_of(bk)
+    uses = [n for n in bk.own_nodes() if isinstance(n, (ast.GeneratorExp, ast.ListComp)) and isinstance(n.elt, ast.Subscript) and unparse(n.elt.value) == "coords" and isinstance(n.generators[0].iter, ast.Name)]
+    ok = bool(uses)
+    why = "coordinate-map use not found"
+    for u_ in uses:
+        cm = u_.generators[0].iter
+        at = kcfg.node_of(u_)
+        for s_ in kfl.rdefs(cm.id, at):
+            if s_.kind == "for" and isinstance(s_.value, ast.Call) and unparse(s_.value.func) == "zip" and any("coord_maps" in unparse(a) for a in s_.value.args) and any("argpairs" in unparse(a) for a in s_.value.args):
+                continue
+            if s_.kind in ("assign", "unpack") and s_.value is not None and isinstance(s_.value, ast.Subscript) and unparse(s_.value.value) == "coord_maps" and not isinstance(s_.value.slice, ast.Constant):
+                idx = s_.value.slice
+                if isinstance(idx, ast.Name) and any(x.kind == "for" and x.index == (0,) for x in kfl.rdefs(idx.id, s_.node)):
+                    continue  # coord_maps[i] with i from enumerate
+            ok = False
+            why = f"`{cm.id}` comes from `{unparse(s_.value, 40) if s_.value is not None else s_.kind}`: plans looked up by array name collapse repeated arguments onto one plan"
+    ctx.ob(bk, uses[0] if uses else None, ok, "blockwise key function: each argument's coordinate map is taken positionally (zip with the argument list)" + ("" if ok else f" — {why}"), sel="names:positional-plan")
     fn = repo.get(f"{A.PBW}.make_blockwise_back_key_function_flattened.blockwise_fn_flattened")
     ck = [c for c in ast.walk(fn.node) if isinstance(c, ast.Call) and CHUNKKEY in repo.callee_quals(c, fn)]
     ok = bool(ck) and unparse(ck[0].args[0]).endswith("[0]") and unparse(ck[0].args[1]).endswith("[1:]")
